@@ -310,7 +310,55 @@ class _SwapSomeIfArms(ast.NodeTransformer):
         return node
 
 
+class _SwapIndependentNeighbours(ast.NodeTransformer):
+    """Swap two neighbouring plain assignments to local names that do not touch each other's names and whose right-hand sides
+    are free of calls on objects (only np. / pd. / sp. functions, arithmetic, attribute and subscript reads): a random 30 %."""
+    SHARE = 0.3
+
+    def __init__(self, seed=5):
+        import random
+        self.rnd = random.Random(seed)
+
+    @staticmethod
+    def _simple(st):
+        if not (isinstance(st, ast.Assign) and len(st.targets) == 1 and isinstance(st.targets[0], ast.Name)):
+            return None
+        for x in ast.walk(st.value):
+            if isinstance(x, ast.Call):
+                f = x.func
+                ok = isinstance(f, ast.Attribute) and isinstance(f.value, ast.Name) and f.value.id in ("np", "pd", "sp") or \
+                    (isinstance(f, ast.Name) and f.id in ("len", "int", "float", "max", "min", "abs", "range", "list", "tuple"))
+                if not ok:
+                    return None
+            if isinstance(x, (ast.Lambda, ast.ListComp, ast.GeneratorExp, ast.DictComp, ast.SetComp, ast.NamedExpr, ast.Yield, ast.Await)):
+                return None
+        reads = {x.id for x in ast.walk(st.value) if isinstance(x, ast.Name)}
+        return st.targets[0].id, reads
+
+    def _block(self, stmts):
+        out = list(stmts)
+        i = 0
+        while i + 1 < len(out):
+            a, b = self._simple(out[i]), self._simple(out[i + 1])
+            if a and b and a[0] != b[0] and a[0] not in b[1] and b[0] not in a[1] and self.rnd.random() < self.SHARE:
+                out[i], out[i + 1] = out[i + 1], out[i]
+                i += 2
+            else:
+                i += 1
+        return out
+
+    def generic_visit(self, node):
+        super().generic_visit(node)
+        if not isinstance(node, (ast.Module, ast.ClassDef)):
+            for field in ("body", "orelse", "finalbody"):
+                v = getattr(node, field, None)
+                if isinstance(v, list) and v and isinstance(v[0], ast.stmt):
+                    setattr(node, field, self._block(v))
+        return node
+
+
 TWINS = {
+    "swap-independent-neighbours-30pct": _SwapIndependentNeighbours,
     "unparse-roundtrip": None,
     "rename-locals": _RenameLocals,
     "insert-noops-and-docstrings": _InsertNoops,
